@@ -189,6 +189,8 @@ def real_tokens(repo, sec, log):
                 ss = rtok.expand_macro(ss, mname, mtext, log, label)
             except rtok.ExtractError as e:
                 raise UnitError(str(e))
+    if "ufcs" in kv:
+        ss = rtok.apply_ufcs(ss, kv["ufcs"].split(","), log, label)
     rules = [r for r in kv.get("rules", "R0").split(",") if r]
     for r in rules:
         if r == "R0":
